@@ -126,6 +126,8 @@ func scenarios(c *vlib.Ctx) []*slib.Scn {
 		for _, f := range []string{"1:start:err", "1:start:panic", "1:prep:err", "1:prep:panic"} {
 			add(modules.C01Params{N: 2, Deps: g, Mgmt: true, Rounds: []int{1, 3}, Fault: f}, 1)
 			add(modules.C01Params{N: 2, Deps: g, Mgmt: true, Rounds: []int{1, 3, 1}, Fault: f}, 1)
+			// the failed pass is simply run again (nothing enabled or disabled in between): nil only if everything wanted is online
+			add(modules.C01Params{N: 2, Deps: g, Mgmt: true, Rounds: []int{1, 3, 3}, Fault: f}, 1)
 		}
 	}
 	for _, f := range []string{"2:start:err", "1:start:err", "2:start:panic"} {
